@@ -321,10 +321,14 @@ def build(tier, seed):
         cfg = read_config(b["file"], bname)
 
         def mk(ctx, name):
+            # representation invariant established by the constructors (RemoteExec.__init__ / PyNativeExec.__init__): a persistent
+            # executor owns an open backend object, a non-persistent one has `_persistent_backend is None` (the path forks on the flag)
+            persist = fresh(ctx, Bool, "persist")
+            backend = Rec(w.classes[b["backend"]], {} if b["backend"] == "StdLibBackend" else {"closed": False}) if ctx.branch(persist) else None
             r = Rec(w.classes[bname], {
                 "_cfg": Rec(w.classes["ExecBackendConfig"], dict(cfg)),
-                "_persist": fresh(ctx, Bool, "persist"), "_size": fresh(ctx, Int, "max_workers"),
-                "_persistent_backend": Rec(w.classes[b["backend"]], {} if b["backend"] == "StdLibBackend" else {"closed": False}),
+                "_persist": persist, "_size": fresh(ctx, Int, "max_workers"),
+                "_persistent_backend": backend,
                 "_inputs": {}})
             holder["self"] = r
             return r
@@ -605,7 +609,7 @@ def build(tier, seed):
             be0 = n.self.f.get("__be0")
             closed = isinstance(be0, Rec) and (be0.f.get("closed", True) is True or "closed" not in be0.f)
             after = n.self.f["_persist"] is False and n.self.f["_persistent_backend"] is None and closed
-            untouched = (n.self.f["_persist"] is p0) and backend_open(n.self)
+            untouched = (n.self.f["_persist"] is p0) and n.self.f["_persistent_backend"] is None
             return And(Implies(p0, after), Implies(z3.Not(p0), untouched))
 
         def keep_backend(ctx, name, wd=wd, bname=bname):
